@@ -357,6 +357,33 @@ func run(c *core.Ctx) {
 			return ext
 		})
 	}
+	// neighbourhoods of long sentences: every rejected single edit (nearby pairs in the
+	// thorough tier), as written and with the line-breaking gaps
+	{
+		window := c.Pick(0, 1)
+		c.R.Bounds["corpus_sentences"] = len(langx.Corpus)
+		c.R.Bounds["corpus_second_edit_window"] = window
+		langx.Neighbourhood(window, c.Shard, c.NShards, langx.ReducedEditAlphabet, func(seed int, toks []string, text []byte) {
+			_, lv, _ := langx.Lib(append([]byte{}, text...))
+			_, mv, _ := langx.Model(text)
+			if mv.OK || lv.OK {
+				return
+			}
+			judge("corpus-edits", text)
+			if mv.AtEOF || len(toks) < 2 {
+				return
+			}
+			// every gap of the sentence set to one line-breaking layout at a time: all LF,
+			// all CR, all CRLF, all comment-with-multi-byte
+			gi := make([]int, len(toks)-1)
+			for k := 1; k < len(gaps); k++ {
+				for p := range gi {
+					gi[p] = k
+				}
+				judge("corpus-layout", []byte(render(toks, gi)))
+			}
+		})
+	}
 	// lexical errors: character units
 	langx.Units(c.Pick(4, 5), c.Shard, c.NShards, func(text []byte) {
 		judge("units", append([]byte{}, text...))
